@@ -404,12 +404,12 @@ class Check:
 def diff_cases(chk, name, cases, impl_out, model_out, monitor=None, max_report=3):
     """Compare implementation and model line by line.  [monitor(case, impl_line)] returns
     None when the implementation's own trace satisfies the property, else a reason."""
-    nbad = 0
     if len(impl_out) != len(cases) or len(model_out) != len(cases):
         chk.violation("%s: harness/model produced %d/%d lines for %d cases"
                       % (name, len(impl_out), len(model_out), len(cases)),
                       {"kind": "correspondence", "obligation": name}, found_input=False)
         return 1
+    bad = []       # (has_reason, kind, case, impl, model, reason)
     for c, a, b in zip(cases, impl_out, model_out):
         chk.count(name, c + "=>" + a)
         reason = monitor(c, a) if monitor else None
@@ -417,26 +417,28 @@ def diff_cases(chk, name, cases, impl_out, model_out, monitor=None, max_report=3
             f = chk.match_known(reason[6:])
             if f is not None:
                 chk.known_hit(f)
-                if "example" not in f:
-                    f["example"] = {"case": c, "impl": a}
                 reason = None
             else:
                 reason = "unlisted finding " + reason[6:]
         if canon(a) != canon(b):
             chk.cov["disagreements_checked"] += 1
-            nbad += 1
-            if nbad <= max_report:
-                chk.violation("%s: implementation and model disagree%s"
-                              % (name, (": " + reason) if reason else ""),
-                              {"kind": "correspondence", "obligation": name, "case": c,
-                               "impl": a, "model": b, "monitor": reason},
-                              found_input=reason is not None)
+            bad.append((reason is not None, "correspondence", c, a, b, reason))
         elif reason:
-            nbad += 1
-            if nbad <= max_report:
-                chk.violation("%s: trace violates the property: %s" % (name, reason),
-                              {"kind": "monitor", "obligation": name, "case": c, "impl": a},
-                              found_input=True)
+            bad.append((True, "monitor", c, a, b, reason))
+    nbad = len(bad)
+    # report the shortest cases, those with a failing input (monitor verdict) first
+    bad.sort(key=lambda t: (not t[0], len(t[2])))
+    for has, kind, c, a, b, reason in bad[:max_report]:
+        if kind == "correspondence":
+            chk.violation("%s: implementation and model disagree%s"
+                          % (name, (": " + reason) if reason else ""),
+                          {"kind": "correspondence", "obligation": name, "case": c,
+                           "impl": a, "model": b, "monitor": reason},
+                          found_input=reason is not None)
+        else:
+            chk.violation("%s: trace violates the property: %s" % (name, reason),
+                          {"kind": "monitor", "obligation": name, "case": c, "impl": a},
+                          found_input=True)
     chk.corr(name, len(cases))
     return nbad
 
